@@ -198,7 +198,8 @@ fn gen_len(r: &mut Rng, k: &Knobs, boundary: &[usize], max: usize) -> usize {
 }
 
 fn gen_str(r: &mut Rng, k: &Knobs, utf8: bool) -> Vec<u8> {
-    let n = gen_len(r, k, &STR_BOUNDARY, k.max_str);
+    // rarely: lengths around the async readers' 4 KiB pre-allocation threshold
+    let n = if k.boundary_pct > 0 && r.chance(1, 150) { *r.pick(&[4095usize, 4096, 4097, 8200]) } else { gen_len(r, k, &STR_BOUNDARY, k.max_str) };
     if utf8 {
         // ASCII keeps strings valid UTF-8 for the `String`-typed fields
         (0..n).map(|_| b'a' + (r.below(26) as u8)).collect()
